@@ -278,17 +278,19 @@ func c08Exec(k *c08Case) *c08Outcome {
 	case "set-pid":
 		out.Err = c.SetPID(libaudit.WaitForReply)
 	case "set-ratelimit":
-		out.Err = c.SetRateLimit(r.Uint32(), libaudit.WaitForReply)
+		out.Err = c.SetRateLimit(mon.Pick(r, []uint32{r.Uint32(), 0, 1<<32 - 1, uint32(r.Intn(1000))}), libaudit.WaitForReply)
 	case "set-backloglimit":
-		out.Err = c.SetBacklogLimit(r.Uint32(), libaudit.WaitForReply)
+		out.Err = c.SetBacklogLimit(mon.Pick(r, []uint32{r.Uint32(), 0, 1<<32 - 1, uint32(r.Intn(10000))}), libaudit.WaitForReply)
 	case "set-enabled":
 		out.Err = c.SetEnabled(r.Bool(), libaudit.WaitForReply)
 	case "set-immutable":
 		out.Err = c.SetImmutable(libaudit.WaitForReply)
 	case "set-failure":
-		out.Err = c.SetFailure(libaudit.FailureMode(r.Intn(3)), libaudit.WaitForReply)
+		out.Err = c.SetFailure(mon.Pick(r, []libaudit.FailureMode{0, 1, 2, 3, 255, libaudit.FailureMode(r.Uint32())}), libaudit.WaitForReply)
 	case "set-backlogwait":
-		out.Err = c.SetBacklogWaitTime(int32(r.Intn(60000)), libaudit.WaitForReply)
+		// "all status values": also the ones the kernel of the day would refuse (negative, huge); the verdict is
+		// the kernel's, so the request has to be sent whatever the value
+		out.Err = c.SetBacklogWaitTime(mon.Pick(r, []int32{int32(r.Intn(60000)), int32(r.Intn(60000)), -1, -int32(r.Intn(60000)) - 1, -1 << 31, 1<<31 - 1, 0}), libaudit.WaitForReply)
 	}
 	out.NMain = len(sim.Sent)
 	mainDone = true
